@@ -1,7 +1,8 @@
 //! Harness bodies driving the real `seq_io::parallel` functions, their event log and oracles.
 
 use serde::{Deserialize, Serialize};
-use std::sync::{Arc, Mutex};
+use std::sync::{Arc, Condvar, Mutex, MutexGuard};
+use std::time::{Duration, Instant};
 
 #[derive(Clone, Debug, PartialEq, Eq, Serialize, Deserialize)]
 pub enum Ev {
@@ -24,8 +25,19 @@ pub enum Ev {
     RecRecv { set_tag: usize, id: String, out: String },
 }
 
+/// Real-thread conformance (parreal): every event site waits until all earlier events of the
+/// recorded trace have happened. Never active under the controlled scheduler.
+#[derive(Debug, Default)]
+pub struct Turnstile {
+    pub trace: Vec<Ev>,
+    pub next: usize,
+    pub released: bool,
+    pub failed: Option<String>,
+}
+
 #[derive(Default, Debug)]
 pub struct Exec {
+    pub turn: Option<Turnstile>,
     pub log: Vec<Ev>,
     pub returned: bool,
     pub fills: usize,
@@ -33,15 +45,94 @@ pub struct Exec {
     pub inits: usize,
     pub violation: Option<(String, String)>,
     pub in_flight_max: usize,
+    /// the consumer is inside next(): it may already have taken a result (and recycled a data set)
+    /// that the harness has not logged yet
+    pub in_next: bool,
 }
 
-pub type ExecRef = Arc<Mutex<Exec>>;
+#[derive(Default, Debug)]
+pub struct ExecCell {
+    m: Mutex<Exec>,
+    cv: Condvar,
+}
+
+impl ExecCell {
+    pub fn lock(&self) -> MutexGuard<'_, Exec> {
+        self.m.lock().unwrap_or_else(|p| p.into_inner())
+    }
+}
+
+pub type ExecRef = Arc<ExecCell>;
+
+pub fn new_exec() -> ExecRef {
+    Arc::new(ExecCell::default())
+}
+
+pub const TURNSTILE_TIMEOUT: Duration = Duration::from_millis(400);
+
+#[derive(Clone, Debug, Serialize, Deserialize)]
+pub enum Body {
+    H1(H1),
+    H2(H2),
+}
+
+pub fn run_body(b: &Body, x: &ExecRef) {
+    match b {
+        Body::H1(c) => run_h1(c, x),
+        Body::H2(c) => run_h2(c, x),
+    }
+}
+
+/// A trace is turnstile-deterministic if at no time two results (sets or the error item) are
+/// between "produced" and "received": the order of their channel sends is then fixed by the order of
+/// the harness event sites, so a real-thread replay can be forced into exactly this trace.
+pub fn turnstile_deterministic(log: &[Ev]) -> bool {
+    let mut pending: Vec<String> = vec![];
+    for ev in log {
+        match ev {
+            Ev::WorkEnd { k, .. } => pending.push(format!("s{}", k)),
+            Ev::FillErr { k } => pending.push(format!("e{}", k)),
+            Ev::NextSet { k, .. } => pending.retain(|p| *p != format!("s{}", k)),
+            Ev::NextErr { k, .. } => pending.retain(|p| *p != format!("e{}", k)),
+            Ev::RecWork { set_tag, .. } => {
+                let key = format!("t{}", set_tag);
+                if !pending.contains(&key) {
+                    pending.push(key);
+                }
+            }
+            Ev::RecRecv { set_tag, .. } => pending.retain(|p| *p != format!("t{}", set_tag)),
+            _ => {}
+        }
+        if pending.len() >= 2 {
+            return false;
+        }
+    }
+    true
+}
+
+/// outcome class of a finished execution: the consumer-visible items
+pub fn class_of(x: &ExecRef) -> (String, usize) {
+    let e = x.lock();
+    let items: Vec<String> = e
+        .log
+        .iter()
+        .filter_map(|ev| match ev {
+            Ev::NextSet { k, .. } => Some(format!("s{}", k)),
+            Ev::NextErr { k, .. } => Some(format!("e{}", k)),
+            Ev::NextEnd { .. } => Some("end".into()),
+            Ev::RecRecv { id, .. } => Some(id.clone()),
+            Ev::Return { what } => Some(format!("ret:{}", what)),
+            _ => None,
+        })
+        .collect();
+    (items.join(","), e.in_flight_max)
+}
 
 pub const VIOL: &str = "VERIF-VIOLATION";
 
 pub fn violate(x: &ExecRef, clause: &str, why: String) -> ! {
     {
-        let mut e = x.lock().unwrap_or_else(|p| p.into_inner());
+        let mut e = x.lock();
         if e.violation.is_none() {
             e.violation = Some((clause.to_string(), why.clone()));
         }
@@ -52,7 +143,35 @@ pub fn violate(x: &ExecRef, clause: &str, why: String) -> ! {
 fn log(x: &ExecRef, ev: Ev, queue: usize) {
     let mut bad: Option<(String, String)> = None;
     {
-        let mut e = x.lock().unwrap_or_else(|p| p.into_inner());
+        let mut e = x.lock();
+        if e.turn.is_some() {
+            let deadline = Instant::now() + TURNSTILE_TIMEOUT;
+            loop {
+                let t = e.turn.as_mut().unwrap();
+                if t.released || t.next >= t.trace.len() {
+                    break;
+                }
+                if t.trace[t.next] == ev {
+                    t.next += 1;
+                    x.cv.notify_all();
+                    break;
+                }
+                if !t.trace[t.next..].contains(&ev) {
+                    t.failed = Some(format!("real execution produced {:?}, which the trace does not contain after position {}", ev, t.next));
+                    t.released = true;
+                    x.cv.notify_all();
+                    break;
+                }
+                let now = Instant::now();
+                if now >= deadline {
+                    t.failed = Some(format!("turnstile time-out waiting for trace position {} ({:?}) while holding {:?}", t.next, t.trace[t.next], ev));
+                    t.released = true;
+                    x.cv.notify_all();
+                    break;
+                }
+                e = x.cv.wait_timeout(e, deadline - now).unwrap_or_else(|p| p.into_inner()).0;
+            }
+        }
         if e.returned {
             if matches!(ev, Ev::Fill { .. } | Ev::WorkStart { .. } | Ev::WorkEnd { .. } | Ev::RecWork { .. } | Ev::FillErr { .. }) {
                 bad = Some(("activity-after-return".into(), format!("{:?} after the parallel call returned", ev)));
@@ -60,14 +179,22 @@ fn log(x: &ExecRef, ev: Ev, queue: usize) {
         }
         match ev {
             Ev::Fill { .. } => e.fills += 1,
-            Ev::NextSet { .. } => e.received += 1,
+            Ev::NextCall { .. } => e.in_next = true,
+            Ev::NextErr { .. } | Ev::NextEnd { .. } => e.in_next = false,
+            Ev::NextSet { .. } => {
+                e.received += 1;
+                e.in_next = false;
+            }
             Ev::DatasetInit { ok: true, .. } => e.inits += 1,
             Ev::Return { .. } => e.returned = true,
             _ => {}
         }
-        // C16: the reader can never be more than the queue length ahead of the consumer
-        if e.fills > e.received + queue {
-            bad = Some(("reader-ahead".into(), format!("{} sets filled but only {} received: more than queue length {} ahead", e.fills, e.received, queue)));
+        // C16: the reader can never be more than the queue length ahead of the consumer. A result the
+        // consumer has taken inside a next() call that has not returned yet counts as received (on
+        // real threads the reader may refill the recycled set before the harness logs the return).
+        let taken = e.received + if e.in_next { 1 } else { 0 };
+        if queue != usize::MAX && e.fills > taken + queue {
+            bad = Some(("reader-ahead".into(), format!("{} sets filled but only {} received{}: more than queue length {} ahead", e.fills, e.received, if e.in_next { " (+1 possibly taken inside the pending next())" } else { "" }, queue)));
         }
         let infl = e.fills - e.received.min(e.fills);
         e.in_flight_max = e.in_flight_max.max(infl);
@@ -155,8 +282,10 @@ impl seq_io::parallel::Reader for ScriptReader {
 /// Runs one execution of H1 on the real `read_parallel_init`; all oracles inside.
 pub fn run_h1(c: &H1, x: &ExecRef) {
     {
-        let mut e = x.lock().unwrap_or_else(|p| p.into_inner());
+        let mut e = x.lock();
+        let turn = e.turn.take();
         *e = Exec::default();
+        e.turn = turn;
     }
     let tags: Arc<Mutex<Vec<usize>>> = Arc::new(Mutex::new(vec![]));
     let queue = c.queue;
@@ -509,8 +638,10 @@ macro_rules! h2_call {
 
 pub fn run_h2(c: &H2, x: &ExecRef) {
     {
-        let mut e = x.lock().unwrap_or_else(|p| p.into_inner());
+        let mut e = x.lock();
+        let turn = e.turn.take();
         *e = Exec::default();
+        e.turn = turn;
     }
     let (res, rset_inits) = match c.format {
         Fmt::Fasta => {
@@ -528,7 +659,7 @@ pub fn run_h2(c: &H2, x: &ExecRef) {
 fn check_h2(c: &H2, x: &ExecRef, res: &Result<Option<usize>, PErr>, rset_inits: usize) {
     let (seq, seq_err) = sequential(c);
     let recv: Vec<(usize, String)> = {
-        let e = x.lock().unwrap_or_else(|p| p.into_inner());
+        let e = x.lock();
         e.log.iter().filter_map(|ev| if let Ev::RecRecv { set_tag, id, .. } = ev { Some((*set_tag, id.clone())) } else { None }).collect()
     };
     if !c.plain && rset_inits > c.queue + 1 {
@@ -556,7 +687,7 @@ fn check_h2(c: &H2, x: &ExecRef, res: &Result<Option<usize>, PErr>, rset_inits: 
         violate(x, "order-single-worker", format!("single worker but records arrived in order {:?}", pos_of));
     }
     let rec_init_failed = {
-        let e = x.lock().unwrap_or_else(|p| p.into_inner());
+        let e = x.lock();
         e.log.iter().any(|ev| matches!(ev, Ev::RecInitFail { .. }))
     };
     let init_fail = c.reader_init_fails || c.rset_init_fail_at.map_or(false, |j| j <= c.queue);
